@@ -19,7 +19,7 @@ struct ReaderBox {
 	uint64_t start = 0; // position of byte 0 of the content (always 0 from the reader's point of view)
 };
 
-// backend: mem | file | fileslice | sim
+// backend: mem | file | fileslice | sim | memoff | fileoff
 inline ReaderBox openBackend(const std::string& backend, const std::vector<uint8_t>& bytes, const std::string& tag, uint64_t padSeed) {
 	ReaderBox b;
 	if (backend == "mem") {
@@ -40,6 +40,20 @@ inline ReaderBox openBackend(const std::string& backend, const std::vector<uint8
 		whole.insert(whole.end(), tail.begin(), tail.end());
 		disk::put(tag + ".bin", whole);
 		b.rd = std::make_unique<OP2Utility::Stream::FileSliceReader>(OP2Utility::Stream::FileReader(tag + ".bin").Slice(37, bytes.size()));
+	} else if (backend == "memoff" || backend == "fileoff") {
+		// the content does not start at stream position 0: a reader over junk + content, already advanced to the content
+		std::vector<uint8_t> whole = prngBytes(padSeed ^ 0x0ff, 23 + padSeed % 40);
+		b.start = whole.size();
+		whole.insert(whole.end(), bytes.begin(), bytes.end());
+		if (backend == "memoff") {
+			b.block.reset(new char[whole.size()]);
+			memcpy(b.block.get(), whole.data(), whole.size());
+			b.rd = std::make_unique<OP2Utility::Stream::MemoryReader>(b.block.get(), whole.size());
+		} else {
+			disk::put(tag + ".bin", whole);
+			b.rd = std::make_unique<OP2Utility::Stream::FileReader>(tag + ".bin");
+		}
+		b.rd->Seek(b.start);
 	} else throw std::runtime_error("bad backend " + backend);
 	return b;
 }
